@@ -35,10 +35,57 @@ type reuseCase struct {
 	IkmR, IkmS, IkmS2 []byte
 	Info              []byte
 	Steps             []reuseStep
+	// Arena: every []byte argument of every step (enc, psk, psk_id, pt, aad, ct) lives in one caller-owned arena; the
+	// regions are overwritten in place after each call and the same backing arrays are handed to the same objects
+	// again with the next step's contents (a caller re-using its receive / key buffers).
+	Arena bool
+}
+
+// arena is one caller-owned buffer carved into named regions separated by guard bytes. Slices handed out keep the
+// capacity up to the end of the arena, so a callee that appends to an argument clobbers the neighbours and is noticed.
+type arena struct {
+	buf  []byte
+	off  map[string]int
+	size map[string]int
+	snap []byte
+}
+
+func newArena(sizes map[string]int, order []string) *arena {
+	a := &arena{off: map[string]int{}, size: sizes}
+	n := 8
+	for _, name := range order {
+		a.off[name] = n
+		n += sizes[name] + 8
+	}
+	a.buf = bytes.Repeat([]byte{0xa5}, n)
+	return a
+}
+
+// set writes data into its region and returns the arena slice holding it (nil stays nil).
+func (a *arena) set(name string, data []byte) []byte {
+	if data == nil {
+		return nil
+	}
+	if len(data) > a.size[name] {
+		panic("arena region too small: " + name)
+	}
+	o := a.off[name]
+	copy(a.buf[o:], data)
+	return a.buf[o : o+len(data)]
+}
+
+func (a *arena) snapshot()    { a.snap = append(a.snap[:0], a.buf...) }
+func (a *arena) intact() bool { return bytes.Equal(a.snap, a.buf) }
+
+// scribble overwrites every byte of the arena (what a caller does when it re-uses or wipes its buffers).
+func (a *arena) scribble(salt byte) {
+	for i := range a.buf {
+		a.buf[i] = a.buf[i]*3 + salt + byte(i)
+	}
 }
 
 func (c *reuseCase) String() string {
-	s := fmt.Sprintf("kem=%#04x kdf=%d aead=%d ikmR=%x ikmS=%x ikmS2=%x info=%s steps:", c.S.KEM, c.S.KDF, c.S.AEAD, c.IkmR, c.IkmS, c.IkmS2, hx(c.Info))
+	s := fmt.Sprintf("kem=%#04x kdf=%d aead=%d ikmR=%x ikmS=%x ikmS2=%x info=%s arena=%v steps:", c.S.KEM, c.S.KDF, c.S.AEAD, c.IkmR, c.IkmS, c.IkmS2, hx(c.Info), c.Arena)
 	for _, st := range c.Steps {
 		s += fmt.Sprintf(" [%s ikmE=%x psk=%s psk_id=%s altS=%v reader=%s]", modeName[st.Mode], st.IkmE, hx(st.Psk), hx(st.PskID), st.AltS, st.Rd)
 	}
@@ -46,7 +93,7 @@ func (c *reuseCase) String() string {
 }
 
 func (c *reuseCase) hashParts() [][]byte {
-	p := [][]byte{{byte(c.S.KEM >> 8), byte(c.S.KEM), byte(c.S.KDF), byte(c.S.AEAD)}, c.IkmR, c.IkmS, c.IkmS2, c.Info}
+	p := [][]byte{{byte(c.S.KEM >> 8), byte(c.S.KEM), byte(c.S.KDF), byte(c.S.AEAD), map[bool]byte{true: 1}[c.Arena]}, c.IkmR, c.IkmS, c.IkmS2, c.Info}
 	for _, st := range c.Steps {
 		p = append(p, []byte{byte(st.Mode), map[bool]byte{true: 1}[st.AltS]}, st.IkmE, st.Psk, st.PskID, []byte(st.Rd))
 	}
@@ -81,6 +128,13 @@ func evalReuse(c *reuseCase, rep reporter) bool {
 	}
 	prev := "fresh"
 	pskLeft := false
+	var ar *arena
+	if c.Arena {
+		vlib.Class(sub, "caller-buffers=one-arena-reused-in-place")
+		ar = newArena(map[string]int{"enc": k.Nenc, "psk": 400, "id": 400, "pt": 64, "aad": 16, "ct": 96}, []string{"psk", "enc", "id", "aad", "pt", "ct"})
+	} else {
+		vlib.Class(sub, "caller-buffers=fresh-slices")
+	}
 	distinctModes := map[int]bool{}
 	for i, st := range c.Steps {
 		if isAuth(st.Mode) && !k.Auth {
@@ -107,6 +161,11 @@ func evalReuse(c *reuseCase, rep reporter) bool {
 		trans := prev + "-then-" + modeName[st.Mode]
 		vlib.Class(sub, "transition="+trans)
 		mayFail := pskLeft && !isPSK(st.Mode)
+		encIn, pskIn, idIn := renc, st.Psk, st.PskID
+		if ar != nil {
+			encIn, pskIn, idIn = ar.set("enc", renc), ar.set("psk", st.Psk), ar.set("id", st.PskID)
+			ar.snapshot()
+		}
 		// ---- the one Sender
 		var enc []byte
 		var sl hpke.Sealer
@@ -116,11 +175,11 @@ func evalReuse(c *reuseCase, rep reporter) bool {
 			case rhpke.ModeBase:
 				enc, sl, err = snd.Setup(rd)
 			case rhpke.ModePSK:
-				enc, sl, err = snd.SetupPSK(rd, st.Psk, st.PskID)
+				enc, sl, err = snd.SetupPSK(rd, pskIn, idIn)
 			case rhpke.ModeAuth:
 				enc, sl, err = snd.SetupAuth(rd, cSkS)
 			default:
-				enc, sl, err = snd.SetupAuthPSK(rd, cSkS, st.Psk, st.PskID)
+				enc, sl, err = snd.SetupAuthPSK(rd, cSkS, pskIn, idIn)
 			}
 		})
 		switch {
@@ -141,18 +200,21 @@ func evalReuse(c *reuseCase, rep reporter) bool {
 				return false
 			}
 		}
+		if ar != nil && !ar.intact() {
+			return rep("C07/reuse/sender/caller-buffer-modified", fmt.Sprintf("step %d: Sender.Setup* wrote into its arguments or beyond them; case %s", i, c))
+		}
 		// ---- the one Receiver (fed with the reference's enc, so that it is evaluated even if the sender failed)
 		var op hpke.Opener
 		p, stk = vlib.Catch(func() {
 			switch st.Mode {
 			case rhpke.ModeBase:
-				op, err = rcv.Setup(renc)
+				op, err = rcv.Setup(encIn)
 			case rhpke.ModePSK:
-				op, err = rcv.SetupPSK(renc, st.Psk, st.PskID)
+				op, err = rcv.SetupPSK(encIn, pskIn, idIn)
 			case rhpke.ModeAuth:
-				op, err = rcv.SetupAuth(renc, cPkS)
+				op, err = rcv.SetupAuth(encIn, cPkS)
 			default:
-				op, err = rcv.SetupAuthPSK(renc, st.Psk, st.PskID, cPkS)
+				op, err = rcv.SetupAuthPSK(encIn, pskIn, idIn, cPkS)
 			}
 		})
 		switch {
@@ -168,6 +230,50 @@ func evalReuse(c *reuseCase, rep reporter) bool {
 			if !compareCtx(rep, "C07/reuse/receiver/"+trans, mb(op), 1, rR, hc) {
 				vlib.Sample(sub, "mismatch", c.String())
 				return false
+			}
+		}
+		if ar != nil {
+			if !ar.intact() {
+				return rep("C07/reuse/receiver/caller-buffer-modified", fmt.Sprintf("step %d: Receiver.Setup* wrote into its arguments or beyond them; case %s", i, c))
+			}
+			// the caller wipes / re-uses its buffers: the contexts already handed out must not change
+			ar.scribble(byte(i))
+			hc := &hcase{S: c.S, Mode: st.Mode}
+			if sl != nil && !compareCtx(rep, "C07/reuse/sender/"+trans+"/after-buffer-overwrite", mb(sl), 0, rS, hc) {
+				return false
+			}
+			if op != nil && !compareCtx(rep, "C07/reuse/receiver/"+trans+"/after-buffer-overwrite", mb(op), 1, rR, hc) {
+				return false
+			}
+			if sl != nil && op != nil {
+				msg := append([]byte("re-used caller buffers "), byte(i))
+				ptIn, aadIn := ar.set("pt", msg), ar.set("aad", []byte{byte(i), 0x55})
+				ar.snapshot()
+				ct, err := sl.Seal(ptIn, aadIn)
+				if err != nil {
+					return rep("C07/reuse/seal-error", fmt.Sprintf("%v; case %s", err, c))
+				}
+				want, _ := rS.Seal([]byte{byte(i), 0x55}, msg)
+				if !bytes.Equal(ct, want) {
+					return rep("C07/reuse/"+trans+"/ciphertext", fmt.Sprintf("step %d: ciphertext %x, RFC 9180 %x; case %s", i, ct, want, c))
+				}
+				if !ar.intact() {
+					return rep("C07/reuse/sender/caller-buffer-modified", fmt.Sprintf("step %d: Seal wrote into its arguments or beyond them; case %s", i, c))
+				}
+				ctIn := ar.set("ct", ct)
+				ar.set("pt", bytes.Repeat([]byte{0}, len(msg))) // the plaintext buffer is wiped before the ciphertext is opened
+				ar.snapshot()
+				pt, err := op.Open(ctIn, aadIn)
+				if err != nil || !bytes.Equal(pt, msg) {
+					return rep("C07/reuse/"+trans+"/roundtrip", fmt.Sprintf("step %d: the re-used Receiver does not open what the re-used Sender sealed: %v; case %s", i, err, c))
+				}
+				if !ar.intact() {
+					return rep("C07/reuse/receiver/caller-buffer-modified", fmt.Sprintf("step %d: Open wrote into its arguments or beyond them; case %s", i, c))
+				}
+				ar.scribble(byte(i) + 77)
+				if !bytes.Equal(pt, msg) {
+					vlib.Class(sub, "opened-plaintext-aliases-caller-buffer") // allowed, only counted
+				}
 			}
 		}
 		if sl != nil && op != nil {
@@ -209,6 +315,7 @@ func TestC07Reuse(t *testing.T) {
 		c.IkmS = vlib.EdgeBytes(t, sch.SeedSize(), "ikmS")
 		c.IkmS2 = vlib.EdgeBytes(t, sch.SeedSize(), "ikmS2")
 		c.Info = drawOpt(t, "info")
+		c.Arena = rapid.IntRange(0, 3).Draw(t, "arena") != 0
 		n := rapid.IntRange(2, 5).Draw(t, "nsteps")
 		for i := 0; i < n; i++ {
 			st := reuseStep{Mode: rapid.IntRange(0, 3).Draw(t, "mode"), IkmE: vlib.EdgeBytes(t, sch.EncapsulationSeedSize(), "ikmE"),
@@ -241,7 +348,7 @@ func TestC07ReuseAllOrders(t *testing.T) {
 				}
 				s := rhpke.Suite{KEM: id, KDF: kdfIDs[(ki+m1)%3], AEAD: aeadIDs[(ki+m2)%3]}
 				a, b := sweepCase(s, m1, 11), sweepCase(s, m2, 12)
-				c := &reuseCase{S: s, IkmR: a.IkmR, IkmS: a.IkmO, IkmS2: b.IkmO, Info: a.Info}
+				c := &reuseCase{S: s, IkmR: a.IkmR, IkmS: a.IkmO, IkmS2: b.IkmO, Info: a.Info, Arena: (ki+m1+m2)%3 != 0}
 				for j, h := range []*hcase{a, b} {
 					st := reuseStep{Mode: h.Mode, IkmE: h.IkmE, AltS: j == 1 && (m1+m2)%2 == 1, Rd: readerStyles[(m1+2*m2+j)%4]}
 					if isPSK(h.Mode) {
